@@ -550,6 +550,13 @@ def rule_file_checkers(ctx):
                                 cb_ = F.bodies.get(b.blocks[o.key[0]]['stmts'][o.key[1]]['rv']['ak'].get('closure'))
                                 if cb_ is not None:
                                     names |= {c_.name for c_ in cb_.calls.values() if not cb_.blocks[c_.bb]['cleanup']}
+                # a local helper on the way (`list_directory(path) -> Vec<OsString>`): what it (and its closures) call counts as part of the chain
+                for x in list(anc.values()):
+                    cb_ = F.callee_body(x)
+                    if cb_ is not None and cb_.crate == 'pie' and cb_.id != b.id:
+                        for y in F.with_closures(cb_):
+                            names |= {c_.name for c_ in y.calls.values() if not y.blocks[c_.bb]['cleanup']}
+                        names.discard(x.name)
                 from_names = 'file_name' in names or 'path' in names
                 lossy = sorted(n_ for n_ in names if n_ not in LOSSLESS)
                 if not from_names:
